@@ -273,7 +273,10 @@ func TestC12(t *testing.T) {
 
 // c12AlivePort: an alive message received on the packet path keeps its port - except that a message without a
 // port (or any message, on a receiver speaking a protocol version below 2) gets the receiver's configured port.
-func c12AlivePort(r *rng, id string) {
+func c12AlivePort(r *rng, id string) { alivePortLeg("C12", r, id) }
+
+// alivePortLeg also runs under C04: a member learned by gossip is probed at the port it advertised.
+func alivePortLeg(prop string, r *rng, id string) {
 	proto := uint8(1 + r.intn(5))
 	rcv, err := newCnode(ccfg{name: "R", proto: proto})
 	if err != nil {
@@ -290,7 +293,7 @@ func c12AlivePort(r *rng, id string) {
 			got = int(nd.Port)
 		}
 	}
-	emit("C12 aliveport id=%s proto=%d bind=7946 port=%d got=%d panic=%d", id, proto, port, got, b2i(pan))
+	emit("%s aliveport id=%s proto=%d bind=7946 port=%d got=%d panic=%d", prop, id, proto, port, got, b2i(pan))
 }
 
 // c12Udp: best-effort user messages of 1 byte to 12 kB arrive over the stock UDP transport while the application
